@@ -55,6 +55,8 @@ def detect(seed):
     try:
         rc, out = sh(f'git apply {os.path.abspath(seed)}/patch.diff', cwd=d)
         if rc != 0:
+            rc, out = sh(f'patch -p1 -s -f --no-backup-if-mismatch -i {os.path.abspath(seed)}/patch.diff', cwd=d)
+        if rc != 0:
             return {'applies': False}
         rc, out = sh(f'/verif/bin/sfcheck all -repo {d}')
         hits = [l for l in out.splitlines() if l.startswith('OBL ') or l.startswith('ERROR')]
